@@ -38,7 +38,7 @@ CR2 = [[3.0, 0, 1, 2], [0, 2, 2, 2], [1, 5, 0, 1], [2, 2, 3, 0], [4, 1, 1, 1]]
 AX1 = [[0.0, 1], [1, 0], [1, 1], [0, 0], [2, 1], [1, 2], [2, 2]]
 AX2 = [[1.0, 1], [0, 2], [2, 0], [1, 0], [0, 1], [2, 2], [0, 0]]
 
-CONFIGS = ["TO_dp", "TO_eo", "EG_dp", "EG_eo_nu", "GS_dp", "GS_bgl", "CR_1", "CR_2", "ADV_clf", "ADV_reg"]
+CONFIGS = ["TO_dp", "TO_eo", "EG_dp", "EG_eo_nu", "GS_dp", "GS_bgl", "CR_1", "CR_2", "CR_df", "ADV_clf", "ADV_reg"]
 
 
 def bounds(tier, seed):
@@ -83,6 +83,8 @@ def make(cfg):
         return CorrelationRemover(sensitive_feature_ids=[0])
     if cfg == "CR_2":
         return CorrelationRemover(sensitive_feature_ids=[0, 2], alpha=0.5)
+    if cfg == "CR_df":  # DataFrame input, sensitive column given by NAME; D2 has the same columns in another order
+        return CorrelationRemover(sensitive_feature_ids=["s"])
     from fairlearn.adversarial import AdversarialFairnessClassifier, AdversarialFairnessRegressor
     kw = dict(backend="torch", predictor_model=[3], adversary_model=[2], predictor_optimizer="SGD", adversary_optimizer="SGD", learning_rate=0.2,
               batch_size=3, epochs=2, shuffle=False, random_state=0)
@@ -96,6 +98,9 @@ def family(cfg):
 
 
 def do_fit(cfg, est, which):
+    if cfg == "CR_df":
+        import pandas as pd
+        return est.fit(pd.DataFrame(CR1, columns=["s", "a", "b", "c"]) if which == 1 else pd.DataFrame(CR2, columns=["a", "b", "s", "c"]))
     if cfg.startswith("CR"):
         return est.fit(np.array(CR1 if which == 1 else CR2))
     if cfg.startswith("ADV"):
